@@ -325,9 +325,14 @@ def oracle(run):
                 cands = sorted(p['id'] for p in before if p['state'] == 'OPEN' and p['src'] in srcs)
                 if not cands:
                     want = 'nothing'
+                elif cands[0] in foreign:
+                    # the lowest open pull request from that branch was opened by hand with the robot's
+                    # account: it is no integration pull request and the property says nothing about where
+                    # its description sends the event (the model/code comparison still covers the redirect)
+                    want = None
                 else:
                     want = 'pr:%d' % created_for.get(cands[0], cands[0])
-            if names and tgt != want and not tgt.startswith('crash'):
+            if names and want is not None and tgt != want and not tgt.startswith('crash'):
                 fail('commit-event-not-parent', 'commit event on tip of %s handled as %s, expected %s'
                      % (sorted(names), tgt, want), n, {'names': sorted(names), 'handled': tgt, 'expected': want})
         # --- declining the parent
